@@ -67,6 +67,8 @@ def single_assign_env(fn):
                         count[e.id] = count.get(e.id, 0) + 1
                         if isinstance(t, ast.Name):
                             val[e.id] = n.value
+                        elif isinstance(t, ast.Tuple) and isinstance(n.value, ast.Tuple) and len(t.elts) == len(n.value.elts) and e in t.elts:
+                            val[e.id] = n.value.elts[t.elts.index(e)]
                         else:
                             val[e.id] = None
         elif isinstance(n, ast.AnnAssign) and isinstance(n.target, ast.Name):
@@ -319,3 +321,76 @@ def _init_before(fn, loop, name):
         elif any(isinstance(x, ast.Name) and x.id == name and isinstance(x.ctx, ast.Store) for x in ast.walk(st)):
             return None
     return init
+
+
+class _Subst(ast.NodeTransformer):
+    def __init__(self, env):
+        self.env = env
+        self.depth = 0
+
+    def visit_Name(self, node):
+        if isinstance(node.ctx, ast.Load) and node.id in self.env and self.depth < 8:
+            self.depth += 1
+            try:
+                import copy
+                return self.visit(copy.deepcopy(self.env[node.id]))
+            finally:
+                self.depth -= 1
+        return node
+
+
+def deep_inline(e, env):
+    """copy of expression e with every single-assigned local name replaced by
+    its defining expression (recursively); the original tree is untouched"""
+    import copy
+    return ast.fix_missing_locations(_Subst(env).visit(copy.deepcopy(e)))
+
+
+def conjuncts(node, fn, env=None):
+    """all conditions known true at `node`: enclosing if/while tests (with
+    polarity), `and` chains flattened, locals inlined.  Returns list of
+    (expr, polarity)."""
+    from .flow import controlling
+    env = single_assign_env(fn) if env is None else env
+    out = []
+    tests = list(controlling(node, stop=fn))
+    # early exits: `if T: continue/return/raise/break` earlier in an enclosing statement list => not T
+    child, p = node, getattr(node, "_parent", None)
+    while p is not None and child is not fn:
+        for field in ("body", "orelse", "finalbody"):
+            lst = getattr(p, field, None)
+            if isinstance(lst, list) and child in lst:
+                for st in lst[: lst.index(child)]:
+                    if isinstance(st, ast.If) and not st.orelse and st.body and isinstance(st.body[-1], (ast.Continue, ast.Return, ast.Raise, ast.Break)):
+                        tests.append((st.test, False, st))
+        child, p = p, getattr(p, "_parent", None)
+    for test, pol, _ in tests:
+        t = deep_inline(test, env)
+        if pol is True:
+            for c in flatten_bool(t):
+                while isinstance(c, ast.UnaryOp) and isinstance(c.op, ast.Not):
+                    c = c.operand
+                    out.append((c, False))
+                    break
+                else:
+                    out.append((c, True))
+        else:
+            for c in (t.values if isinstance(t, ast.BoolOp) and isinstance(t.op, ast.Or) else [t]):
+                neg = _negate(c)
+                if neg is not None:
+                    out.append((neg, True))
+                else:
+                    out.append((c, False))
+    return out
+
+
+def _negate(c):
+    """positive form of `not c` for comparisons and `not x`"""
+    if isinstance(c, ast.UnaryOp) and isinstance(c.op, ast.Not):
+        return c.operand
+    if isinstance(c, ast.Compare) and len(c.ops) == 1:
+        inv = {ast.Lt: ast.GtE, ast.LtE: ast.Gt, ast.Gt: ast.LtE, ast.GtE: ast.Lt, ast.Eq: ast.NotEq, ast.NotEq: ast.Eq,
+               ast.Is: ast.IsNot, ast.IsNot: ast.Is, ast.In: ast.NotIn, ast.NotIn: ast.In}.get(type(c.ops[0]))
+        if inv is not None:
+            return ast.fix_missing_locations(ast.Compare(left=c.left, ops=[inv()], comparators=c.comparators))
+    return None
